@@ -459,3 +459,62 @@ val cstep : cfg -> nat -> nat -> nat -> cstate -> cev -> cstate option
 val crun : cfg -> nat -> nat -> nat -> cstate -> cev list -> cstate option
 
 val cinit : nat -> cstate
+
+type aph =
+| AIdle
+| AGate of nat
+| ARead
+
+type rph =
+| RIdle
+| RRead of nat
+
+type ast = { xPausing : bool; xA : aph; xAq : nat; xAcked : nat; xS : 
+             csph; xCnt : nat; xR : rph; xRq : wline list; xDeliv : nat list;
+             xBad : bool; xEp : epi }
+
+val first_data : wline list -> (nat * wline list) option
+
+val x_ack : ast -> ast
+
+val x_deliver : ast -> rph -> wline list -> nat -> ast
+
+val x_setR : ast -> rph -> wline list -> ast
+
+val x_rarrive : cfg -> ast -> wline -> ast
+
+val x_rcall : cfg -> ast -> ast
+
+val x_setA : ast -> aph -> nat -> nat -> ast
+
+val x_aread : ast -> ast
+
+val x_acall : cfg -> ast -> ast
+
+val x_setS : ast -> csph -> ast
+
+val x_setCnt : ast -> nat -> ast
+
+val x_bad : ast -> ast
+
+val x_flags : ast -> bool -> epi -> ast
+
+val x_gate : cfg -> ast -> nat -> ast
+
+val x_live : nat -> ast -> bool
+
+val x_quiescent : nat -> nat -> ast -> bool
+
+val x_tickR : ast -> ast
+
+val x_tickA : cfg -> ast -> ast
+
+val x_tickS : cfg -> ast -> ast
+
+val astep : cfg -> nat -> nat -> nat -> ast -> cev -> ast option
+
+val arun : cfg -> nat -> nat -> nat -> ast -> cev list -> ast option
+
+val ainit : nat -> ast
+
+val abs_of : cstate -> ast
